@@ -171,12 +171,20 @@ class IsValidExpression:
     raises = {"Exception": None, "NotImplementedError": None}
     never_raises = ["SyntaxError", "VisitError"]
     clause_props = {"post_shape": ["C02", "C06"], "post_reported_invalid_is_invalid": ["C06"],
-                    "post_invalid_is_reported": ["C06"], "raises-only-declared": ["C02", "C06"]}
+                    "post_invalid_is_reported": ["C06"], "raises-only-declared": ["C02", "C06"],
+                    "post_keys_are_sanitised_before_generation": ["C06", "C18"]}
+
+    def post_keys_are_sanitised_before_generation(expression_or_tree, content_evaluation_result_setter, result,
+                                                  ghost_ExtractFromList_sanitize, ghost_raised_SyntaxError):
+        """call-site obligation: generate_possible_content_evaluation_results needs distinct keys (with a repeated
+        key it generates nothing and every invalid expression would pass); sanitize=True guarantees them"""
+        return ghost_raised_SyntaxError or ghost_ExtractFromList_sanitize is True
 
     def setup(ex, st, values):
         from pyvc.values import SV, mk_i, sv_bool
         st.ghost["generated_count"] = SV(mk_i(0), "int")
         st.ghost["raised_SyntaxError"] = sv_bool(False)
+        st.ghost["ExtractFromList_sanitize"] = sv_none()
         v = values["expression_or_tree"]
         st.ghost["ResolverModular_expression"] = v.data if isinstance(v, Opaque) else v
 
